@@ -30,6 +30,13 @@
 //     memory; its content is recovered from the stores to it and the calls of
 //     the closures that capture it, each closure summarised by what it appends
 //     (cell.go);
+//   - encoding/binary's reflective codec over a struct of fixed-size integers
+//     (binary.Append / Decode / Read) is one atom per leaf field in declaration
+//     order (binstruct.go);
+//   - a placeholder byte that is appended and overwritten once what follows it
+//     is known (buf[lengthAt] = byte(len(buf)-lengthAt-1)) is the stored value
+//     (backfill.go); an append-style codec unit func(dst) ([]byte, error) is one
+//     nested atom after the caller's buffer;
 //   - counted loops in any of their SSA forms (3-clause, range over a slice,
 //     range over an integer with its test at the latch) — Iter;
 //   - slices.Concat / bytes.Clone / slices.Clone / slices.Grow pass bytes
